@@ -329,6 +329,12 @@ def norm_call(res_inst, res, args, fn=None):
         if op in ("add", "mul"):
             return mk_comm(op, args[0], args[1])
         return ("satsub", args[0], args[1])
+    if p.startswith("std::option::Option::<") and p.split("::")[-1].split("<")[0] == "unwrap_or" and len(args) == 2:
+        # unwrap_or of a known variant
+        if args[0][0] == "agg" and args[0][2] == "Some" and len(args[0][4]) == 1:
+            return args[0][4][0]
+        if args[0][0] == "enumc" and args[0][2] == "None":
+            return args[1]
     if _TRY_BRANCH.match(p):
         # `x?` on an Option is a match on x: Continue(v) is Some(v), Break is None (see Evaluator for the renaming)
         if p.startswith("<std::option::Option<"):
@@ -474,6 +480,9 @@ class Evaluator:
                         continue
                     if v[0] == "tuple" and e["i"] < len(v[1]):
                         v = v[1][e["i"]]
+                        continue
+                    if v[0] == "closure" and e["i"] < len(v[2]):
+                        v = v[2][e["i"]]
                         continue
                     if v[0] == "agg" and name in v[3]:
                         v = v[4][v[3].index(name)]
@@ -792,6 +801,12 @@ class Path:
         return "[%s] => %s (%s)" % (g, show(self.ret) if self.ret is not None else "-", self.end)
 
 
+def _stable_arg(v):
+    while isinstance(v, tuple) and v and v[0] in ("ref", "deref") and len(v) >= 2:
+        v = v[1]
+    return isinstance(v, tuple) and len(v) == 2 and v[0] == "arg"
+
+
 class Walker:
     """Enumerates acyclic paths of a body (or of a region starting at start_bb
     and ending when a block of stop_blocks is reached)."""
@@ -816,6 +831,19 @@ class Walker:
         env = {}
         for i in range(1, self.body.argc + 1):
             env[i] = ("arg", i)
+        if start_bb != 0:
+            # a region analysed from its first block with unknown locals: locals that are plain copies of an
+            # argument (or of a reference to one) everywhere - e.g. the parameters of an inlined helper - keep
+            # that value instead of being unknown
+            se = StaticEnv(self.body, self.facts)
+            for l in range(self.body.argc + 1, len(self.body.locals)):
+                if len(se.defs.get(l, [])) == 1:
+                    try:
+                        v = se.local_value(l)
+                    except Exception:
+                        continue
+                    if _stable_arg(v):
+                        env[l] = v
         env.update(self.init_env)
         st = {"env": env, "heap": {}, "known": {}, "epoch": 0, "subst": {}}
         p = Path()
@@ -937,6 +965,8 @@ class Walker:
                                 root = root[1]
                             if root == args[0]:
                                 val = ("vec", hvv[2])
+                if rr is not None and short(rr) in ("Option::map", "Option::and_then") and len(args) == 2 and args[1][0] == "closure" and self._desugar_option_adaptor(short(rr), args, t, st, path, visited, bb):
+                    return
                 path.effects.append(("call", short(rr) if rr else "<indirect>", args, bb, val))
                 # &mut arguments or impure callee: bump epoch
                 if self._mutating(t, st, rr):
@@ -959,6 +989,63 @@ class Walker:
                 self._switch(bb, t, v, st, path, visited)
                 return
             raise RuntimeError("unknown terminator " + k)
+
+    def _desugar_option_adaptor(self, name, args, t, st, path, visited, bb):
+        """`x.map(|v| e)` / `x.and_then(|v| e)` with a closure of this crate is the match it abbreviates: None -> None,
+        Some(v) -> the closure's paths (guards and effects spliced in).  Only pure, small closures; anything else
+        stays an opaque call."""
+        if self.facts is None or t["t"] is None:
+            return False
+        cb = self.facts.body(args[1][1])
+        if cb is None or len(cb.blocks) > 40 or cb.argc != 2:
+            return False
+        x = args[0]
+        env1 = args[1]
+        if strip_lt(cb.locals[1]["ty"]).startswith("&"):
+            env1 = ("ref", args[1])
+        sub = Walker(cb, self.facts, impure=self.impure, max_paths=64, init_env={1: env1, 2: ("downcast0", x)}, max_visits=1)
+        sub.init_env[2] = self.ev._project1(("downcast", x, "Some"), {"f": "0", "i": 0, "adt": "std::option::Option", "ty": ""})
+        try:
+            sub.run()
+        except Exception:
+            return False
+        if sub.truncated or not sub.paths or any(q.end != "return" for q in sub.paths):
+            return False
+        atom = ("variant", x)
+        known = st["known"].get(atom)
+        branches = []
+        if known in (None, ("variant", "None")):
+            branches.append((("variant", "None"), None))
+        if known in (None, ("variant", "Some")):
+            for q in sub.paths:
+                branches.append((("variant", "Some"), q))
+        for o, q in branches:
+            st2 = {"env": dict(st["env"]), "heap": dict(st["heap"]), "known": dict(st["known"]), "epoch": st["epoch"], "subst": dict(st["subst"]), "mutn": st.get("mutn", 0)}
+            p2 = Path()
+            p2.guards = list(path.guards)
+            p2.effects = list(path.effects)
+            p2.blocks = list(path.blocks)
+            if known is None:
+                st2["known"][atom] = o
+                p2.guards.append((atom, o))
+            if q is None:
+                val = ("enumc", "std::option::Option", "None")
+            else:
+                for a, oo in q.guards:
+                    if st2["known"].get(a, oo) != oo:
+                        break
+                    if a not in st2["known"]:
+                        st2["known"][a] = oo
+                        p2.guards.append((a, oo))
+                else:
+                    p2.effects.extend(q.effects)
+                    val = q.ret if name == "Option::and_then" else ("agg", "std::option::Option", "Some", ("0",), (q.ret,))
+                    self._assign(t["dest"], val, st2, p2, bb)
+                    self._go(t["t"], st2, p2, visited)
+                continue
+            self._assign(t["dest"], val, st2, p2, bb)
+            self._go(t["t"], st2, p2, visited)
+        return True
 
     def _heap_get(self, st):
         env = st["env"]
